@@ -33,8 +33,10 @@ CFG = {
                   "scalar text re-reads as the original string in block/flow value and key contexts; end-to-end loop "
                   "(documents x write programs x --indent) is translation validation through the CLI.",
     "level_note": "Reader is lenient about c-printable (the loader is; checked by the re-read oracle). resolve_plain is "
-                  "modelled over modelled core parsers (i64/f64 grammar + finiteness). The streaming needs_yaml_quoting "
-                  "theorem is partial (core-schema spellings it misses are not reachable from the write fragment).",
+                  "modelled over modelled core parsers (i64/f64 grammar + finiteness). stream_unquoted_reread_partial assumes "
+                  "the decoded value of a source plain scalar is itself one-line plain-safe (checked by sloop/ssv, not proved). "
+                  "NOT proved: alias_sound for enforce_anchor_soundness and emit_load for whole documents (block structure, "
+                  "block scalars, comments) - these are covered only by the in-process and CLI loops (ALIAS-FAIL / LOOP-FAIL).",
     "technique": "Lean 4 proof (induction over strings) + differential correspondence (decision functions via CLI hook "
                  "server and library hooks, in-process re-read oracle, CLI end-to-end loop)",
     "variants": [{"features": [], "env": {"SV_CLI": _CLI}}],
@@ -43,6 +45,11 @@ CFG = {
     "lean_files": ["SuccinctlyVerif/Props/C15.lean", "SuccinctlyVerif/Proof/YamlEmit.lean",
                    "SuccinctlyVerif/Model/YamlEmit.lean", "SuccinctlyVerif/Spec/YamlScalar.lean"],
     "generated": ["C15"],
+    "required_theorems": ["SV.Props.C15.current_is_fixed", "SV.Props.C15.double_quote_reread",
+                          "SV.Props.C15.single_quote_reread", "SV.Props.C15.plain_reread",
+                          "SV.Props.C15.scalar_reread", "SV.Props.C15.key_reread",
+                          "SV.Props.C15.stream_smart_quoted_reread", "SV.Props.C15.stream_string_value_reread",
+                          "SV.Props.C15.indent_step_positive", "SV.Props.C15.current_source_reread"],
     "nontrivial": _c15_nontrivial,
     "canon": _c15_canon,
     "rule": "request = one decision-function call on a string (quote/resolve, with style, context, indent) or one "
